@@ -8,6 +8,7 @@ import (
 	"strconv"
 
 	v1 "k8s.io/api/admissionregistration/v1"
+	metav1 "k8s.io/apimachinery/pkg/apis/meta/v1"
 
 	htypes "github.com/flant/shell-operator/pkg/hook/types"
 	kemtypes "github.com/flant/shell-operator/pkg/kube_events_manager/types"
@@ -291,7 +292,6 @@ func vhB2I(b bool) int {
 	return 0
 }
 
-
 // VH_C10_settings: the settings section alone: every spelling of
 // executionMinInterval (whole seconds, sub-second, fractional, composite) and of
 // executionBurst is carried into the effective configuration with its exact value;
@@ -314,5 +314,89 @@ func VH_C10_settings() {
 	}
 	none, err2 := cv1.CheckAndConvertSettings(nil)
 	zz.Assert(none == nil && err2 == nil, "no_settings_no_limits")
+	zz.Reach("end")
+}
+
+// label selector shapes: index -> (selector, valid?)
+func vhLabelSelector(i int) (*metav1.LabelSelector, bool) {
+	in := metav1.LabelSelectorRequirement{Key: "app", Operator: metav1.LabelSelectorOpIn, Values: []string{"a"}}
+	switch i {
+	case 1:
+		return &metav1.LabelSelector{MatchLabels: map[string]string{"app": "web"}}, true
+	case 2:
+		return &metav1.LabelSelector{MatchLabels: map[string]string{"app": "not a valid value"}}, false
+	case 3:
+		return &metav1.LabelSelector{MatchExpressions: []metav1.LabelSelectorRequirement{in}}, true
+	case 4:
+		return &metav1.LabelSelector{MatchExpressions: []metav1.LabelSelectorRequirement{{Key: "app", Operator: "Bogus"}}}, false
+	case 5:
+		return &metav1.LabelSelector{MatchExpressions: []metav1.LabelSelectorRequirement{{Key: "app", Operator: metav1.LabelSelectorOpIn}}}, false
+	case 6:
+		return &metav1.LabelSelector{MatchLabels: map[string]string{"a/b/c": "x"}, MatchExpressions: []metav1.LabelSelectorRequirement{in}}, false
+	case 7:
+		return &metav1.LabelSelector{}, true
+	}
+	return nil, true
+}
+
+// VH_C10_selectors: a kubernetes binding's selectors - labelSelector,
+// namespace.labelSelector, fieldSelector, nameSelector - in valid and invalid
+// shapes: the configuration loads exactly when all of them are valid, and the
+// selectors arrive unchanged in the monitor configuration.
+func VH_C10_selectors() {
+	vhValidatorAccepts()
+	k := OnKubernetesEventConfigV1{Kind: "Pod", Name: "kA"}
+	li := zz.Len("label_selector", 0, 7)
+	ls, lok := vhLabelSelector(li)
+	k.LabelSelector = ls
+	ni := zz.Len("namespace_label_selector", 0, 7)
+	ns, nok := vhLabelSelector(ni)
+	if ni > 0 {
+		k.Namespace = &KubeNamespaceSelectorV1{LabelSelector: ns}
+	}
+	fi := zz.Len("field_selector", 0, 3)
+	fok := true
+	switch fi {
+	case 1:
+		k.FieldSelector = &KubeFieldSelectorV1{MatchExpressions: []kemtypes.FieldSelectorRequirement{{Field: "status.phase", Operator: "Equals", Value: "Running"}}}
+	case 2:
+		k.FieldSelector = &KubeFieldSelectorV1{MatchExpressions: []kemtypes.FieldSelectorRequirement{{Field: "status.phase", Operator: "In", Value: "Running"}}}
+		fok = false
+	case 3:
+		k.FieldSelector = &KubeFieldSelectorV1{MatchExpressions: []kemtypes.FieldSelectorRequirement{{Field: "metadata.name", Operator: "Equals", Value: "x"}}}
+	}
+	withNames := zz.Bool("name_selector")
+	if withNames {
+		k.NameSelector = &KubeNameSelectorV1{MatchNames: []string{"x"}}
+	}
+	cv1 := &HookConfigV1{ConfigVersion: "v1", OnKubernetesEvent: []OnKubernetesEventConfigV1{k}}
+	c := &HookConfig{Version: "v1", V1: cv1}
+	err := cv1.ConvertAndCheck(c)
+	valid := lok && nok && fok && !(withNames && fi == 3)
+	zz.Assert(valid || err != nil, "invalid_selector_is_rejected")
+	zz.Assert(!valid || err == nil, "valid_selectors_load")
+	if err == nil && len(c.OnKubernetesEvents) == 1 {
+		m := c.OnKubernetesEvents[0].Monitor
+		// the monitor configuration holds a copy with the same content
+		zz.Assert((m.LabelSelector != nil) == (ls != nil), "label_selector_carried_unchanged")
+		if m.LabelSelector != nil && ls != nil {
+			zz.Assert(len(m.LabelSelector.MatchLabels) == len(ls.MatchLabels) && len(m.LabelSelector.MatchExpressions) == len(ls.MatchExpressions), "label_selector_carried_unchanged")
+			for k, v := range ls.MatchLabels {
+				zz.Assert(m.LabelSelector.MatchLabels[k] == v, "label_selector_carried_unchanged")
+			}
+		}
+		if ni == 0 {
+			zz.Assert(m.NamespaceSelector == nil, "namespace_selector_carried_unchanged")
+		} else {
+			got := m.NamespaceSelector != nil && m.NamespaceSelector.LabelSelector != nil
+			zz.Assert(got, "namespace_selector_carried_unchanged")
+			if got {
+				g := m.NamespaceSelector.LabelSelector
+				zz.Assert(len(g.MatchLabels) == len(ns.MatchLabels) && len(g.MatchExpressions) == len(ns.MatchExpressions), "namespace_selector_carried_unchanged")
+			}
+		}
+		zz.Assert((m.FieldSelector != nil) == (fi != 0), "field_selector_carried")
+		zz.Assert((m.NameSelector != nil) == withNames, "name_selector_carried")
+	}
 	zz.Reach("end")
 }
